@@ -296,8 +296,9 @@ func (w *world) observe(c corruption, res *drv.Result, download bool, r *rand.Ra
 	}
 	newFs := func() cafs.Fs {
 		opts := []cafs.Option{cafs.Prefetch(r.Intn(3))}
-		if r.Intn(4) != 0 {
-			// a small cache recycles its (1 MiB) buffers; the default cache allocates one per leaf read
+		if r.Intn(24) != 0 {
+			// a small cache recycles its (1 MiB) buffers; the default cache allocates one per leaf read and a 12 MB free
+			// list per instance, which readers with prefetch never give back (see DESIGN §9, observations)
 			opts = append(opts, cafs.CacheSize((1+r.Intn(3))*leaf))
 		}
 		fs, err := cafsh.NewFs(w.env.Blob.For(nil), uint32(leaf), opts...)
